@@ -11,6 +11,7 @@ Model.Files.create."""
 from __future__ import annotations
 
 import hashlib
+import json
 import os
 import random
 import shutil
@@ -79,7 +80,11 @@ def one_run(dev, td, cfg, ref):
     old_input = builtins.input
     if cfg.get("pause"):
         # the documented default: a KeyboardInterrupt pauses the run and asks; "n" cancels (like a plain cancellation), "y" resumes
-        builtins.input = lambda *a_, **k_: cfg["pause"]
+        def _answer(*a_, **k_):
+            if cfg["pause"] == "eof":
+                raise EOFError("EOF when reading a line")           # a batch job: nobody can answer the prompt
+            return cfg["pause"]
+        builtins.input = _answer
     exc_type = RuntimeError if cfg["kind"] == "err" else KeyboardInterrupt
     calls = {"n": 0}
     old_tmp = tempfile.tempdir
@@ -100,7 +105,11 @@ def one_run(dev, td, cfg, ref):
             if (cfg["stage"] == "thermal") == in_thermal:
                 calls["fired"] = True
                 raise exc_type("injected")
-        return orig_update(state, running_state, dt, **kw)
+        res_ = orig_update(state, running_state, dt, **kw)
+        if armed["on"] and cfg["where"] == "update_late" and not calls.get("fired") and state["step"] == cfg["p"]:
+            calls["fired"] = True
+            raise exc_type("injected late in the update (after its per-step records were appended)")
+        return res_
 
     def save(self, state, data, running_state):
         calls["stage_main"] = True
@@ -171,6 +180,8 @@ def one_run(dev, td, cfg, ref):
         try:
             _ = sol.tdgl_data.psi, sol.times, sol.dynamics.dt
             rec["usable"] = True
+            rec["n_records"] = int(len(sol.dynamics.dt))
+            rec["last_time"] = float(np.asarray(sol.times)[-1]) if len(sol.times) else None
         except Exception as e:  # noqa: BLE001
             rec["usable"] = False
             rec["usable_error"] = f"{type(e).__name__}: {e}"[:100]
@@ -183,8 +194,8 @@ def expected_labels(N, k, p, kind, where, stage):
     """Reference semantics straight from the property text."""
     full = [s for s in range(0, N + 1) if s % k == 0] + ([N] if N % k else [])
     if stage == "thermal":
-        return [] if where == "update" else None
-    if where == "update":
+        return [] if where in ("update", "update_late") else None
+    if where in ("update", "update_late"):
         if p > N - 1:
             return full                                   # the fault position is never reached
         lab = [s for s in range(0, p + 1) if s % k == 0]
@@ -244,6 +255,13 @@ def judge(rep, cfg, rec, ref_frames):
                     rep.violation("a frame written before the stop differs from the fault-free run's frame with the same label",
                                   {**case, "step": f["step"]})
                     break
+    if rec.get("usable") and rec["frames"] and cfg["stage"] == "main" and rec.get("n_records") is not None:
+        last_step = rec["frames"][-1]["step"]
+        if rec["n_records"] != last_step or abs(rec["last_time"] - last_step * DT) > 1e-9:
+            rep.violation("the partial solution reports per-step records / times that do not belong to its frames (the last frame holds the "
+                          "state after `step` updates: that many records, that time)",
+                          {**case, "last_frame_step": last_step, "records": rec["n_records"], "last_time_reported": rec["last_time"],
+                           "last_frame_time": last_step * DT})
     reached = exp is None or rec["exc"] is not None or True
     if cfg["kind"] == "kbd" and cfg.get("pause") == "y":
         pass
@@ -407,6 +425,15 @@ def run(rep: common.Report, tier: str, seed: int, replay=None) -> int:
         for ans in ("n", "y"):
             cfgs.append(dict(id=cid, N=N, k=3, p=p, kind="kbd", where="update", stage=stage, explicit=True, preexisting=[], pause=ans))
             cid += 1
+    # the prompt cannot be answered (stdin closed: EOFError) - a cancellation like any other
+    for stage, p in (("main", 3), ("thermal", 1)):
+        cfgs.append(dict(id=cid, N=N, k=3, p=p, kind="kbd", where="update", stage=stage, explicit=True, preexisting=[], pause="eof"))
+        cid += 1
+    # the interrupt arrives late in the update, after the step's records were appended to the buffer: the step did not complete
+    for k_, p in ((3, 4), (3, 2), (1, 3), (N + 1, 5)):
+        for kind in ("kbd", "err"):
+            cfgs.append(dict(id=cid, N=N, k=k_, p=p, kind=kind, where="update_late", stage="main", explicit=True, preexisting=[]))
+            cid += 1
     # relative output name + the working directory changes during the run, stopped by an error / a cancellation / not at all
     for kind, p in (("err", 3), ("kbd", 4), ("kbd", 2), ("err", 10 ** 6)):
         cfgs.append(dict(id=cid, N=N, k=3, p=p, kind=kind, where="update", stage="main", explicit=True, preexisting=[],
@@ -428,6 +455,31 @@ def run(rep: common.Report, tier: str, seed: int, replay=None) -> int:
             if cfg["where"] == "update" and cfg["stage"] == "main" and cfg["explicit"] and rec["frames"] is not None \
                     and not cfg.get("solved_before") and not cfg.get("chdir_during") and cfg.get("pause") != "y":
                 model_cases.append((cfg, [f["step"] for f in rec["frames"]], rec.get("out_name")))
+    # output paths of any form: no extension, dots in directory names, a bare name - choosing the (fresh) name must terminate, must
+    # not touch a file that is already there, and the run must be readable where it says it wrote
+    import subprocess
+    import sys as _sys
+    for out_, pre_ in (("runs/sim1", False), ("data/v1.0/sim", True), ("results", False), ("data/v1.0/sim.h5", True), ("a.b/c.d/out", False)):
+        with tempfile.TemporaryDirectory(prefix="pyt_c15n_") as wd:
+            case_n = {"output_file": out_, "file_already_there": pre_}
+            try:
+                pr = subprocess.run([_sys.executable, "-W", "ignore", os.path.join(os.path.dirname(__file__), "c15_name_worker.py"), out_, "1" if pre_ else "0"],
+                                    cwd=wd, capture_output=True, text=True, timeout=180, env={**os.environ})
+                line = [ln for ln in pr.stdout.splitlines() if ln.startswith("RESULT ")]
+                resn = json.loads(line[-1][7:]) if line else {"error": (pr.stdout + pr.stderr)[-300:]}
+            except subprocess.TimeoutExpired:
+                rep.violation("choosing the output file name did not terminate (the run never started) for a valid output path", case_n)
+                rep.count(1)
+                continue
+            if "error" in resn:
+                rep.violation(f"a run with a valid output path failed: {resn['error']}"[:220], case_n)
+            elif not resn.get("loadable") or (pre_ and not resn.get("pre_intact")) or (pre_ and resn.get("written") == out_):
+                rep.violation("output path form: the run is not readable where it was written, or the existing file was touched / reused",
+                              {**case_n, **{k_: resn.get(k_) for k_ in ("written", "loadable", "pre_intact", "files")}})
+            elif any(os.path.basename(f_).startswith(".") or f_.endswith(".tmp") for f_ in resn.get("files", [])):
+                rep.violation("output path form: hidden or temporary files were left next to the output", {**case_n, "files": resn.get("files")})
+            rep.count(1)
+            rep.nontrivial(("name-form", out_, pre_))
     for c in cfgs[:3] + cfgs[-3:]:
         rep.sample({k_: c[k_] for k_ in ("N", "k", "p", "kind", "where", "stage", "explicit", "preexisting")})
     # ---- model: frame labels under a faulting update; chosen file name
